@@ -1,18 +1,17 @@
-\* C11: one caller, three generations, server closes / resets at every instant, dial failures
+\* client traps; one INVARIANT TrapX is appended by the orchestrator
 SPECIFICATION EagerSpec
 CONSTANTS
-  NC = 1
-  NG = 3
+  NC = 2
+  NG = 4
   RecvTerm = TRUE
   FixDead = TRUE
   SafeClose = TRUE
   CloseTx = FALSE
   ErrBuf = 1
   DialMayFail = TRUE
-  WithClose = FALSE
-  MayCancel = FALSE
+  WithClose = TRUE
+  MayCancel = TRUE
   DialedAtStart = TRUE
   MayReset = TRUE
   MaySrvClose = TRUE
-INVARIANTS Safety Recovers
 CHECK_DEADLOCK FALSE
